@@ -2,6 +2,7 @@ package main
 
 import (
 	"bufio"
+	"bytes"
 	"errors"
 	"fmt"
 	"os"
@@ -147,6 +148,10 @@ func checkC17(c *ctx) {
 	c.Assumptions = append(c.Assumptions, "fsync/close failures are modelled but cannot be injected portably; a write beyond the limit is cut short and fails (what the kernel does under RLIMIT_FSIZE and what the failing writer does)")
 	savedBuf := zap.DefaultFileMergerBufferSize
 	defer func() { zap.DefaultFileMergerBufferSize = savedBuf }()
+	if bad := alignedImages(c); bad != "" {
+		c.Violation("C17 "+bad, false)
+		return
+	}
 	nIn := c.n(3, 25)
 	for i := 0; i < nIn; i++ {
 		o := zh.RandOpts(c.R, 3+c.R.Intn(10), "w")
@@ -642,4 +647,77 @@ func checkC18(c *ctx) {
 		}
 	}
 	zap.DefaultFileMergerBufferSize = savedBuf
+}
+
+// alignedImages: segments whose image (everything before the footer) is an exact multiple of the
+// 4096-byte write buffer, reached by padding a stored value with incompressible bytes; no fault is
+// injected: WriteTo and Persist must produce the complete file.
+func alignedImages(c *ctx) string {
+	for _, base := range []int{3000, 7000, 4096*3 + 100 + c.R.Intn(3000)} {
+		pad := c.R.Bytes(base + 3*4096)
+		mk := func(l int) (zh.Batch, *zap.SegmentBase, int) {
+			b := zh.Batch{
+				{Fields: []zh.Field{zh.IDField("al00"), {Name: "body", Typ: 't', Stored: true, Val: pad[:l], Len: 1, Toks: []zh.Tok{{Term: "pad", Freq: 1}}}}},
+				{Fields: []zh.Field{zh.IDField("al01"), {Name: "body", Typ: 't', Stored: true, Val: []byte("second"), Len: 1, Toks: []zh.Tok{{Term: "pad", Freq: 1}}}}},
+			}
+			sb, _, err := zh.Build(b, 1026)
+			must(err)
+			mem, _, _, _, _, _ := zap.VerifMem(sb)
+			return b, sb, len(mem)
+		}
+		l := base
+		var b zh.Batch
+		var sb *zap.SegmentBase
+		found := false
+		for try := 0; try < 200 && l < len(pad); try++ {
+			var n int
+			b, sb, n = mk(l)
+			if n%4096 == 0 {
+				found = true
+				break
+			}
+			sb.Close()
+			l += 4096 - n%4096
+			if l >= len(pad) {
+				l = base + try + 1
+			}
+		}
+		if !found {
+			c.Count("aligned_image_not_reached")
+			continue
+		}
+		spec, err := zh.SpecOf(c.M, b)
+		mustH(err)
+		mem, _, _, _, _, _ := zap.VerifMem(sb)
+		c.Case(fmt.Sprintf("aligned-image-%d", len(mem)), true)
+		c.Count("images_of_a_multiple_of_4096_bytes")
+		what := fmt.Sprintf("a two-document segment whose image before the footer is %d bytes (%d x 4096; stored value of %d incompressible bytes)", len(mem), len(mem)/4096, l)
+		var buf bytes.Buffer
+		n, err := sb.WriteTo(&buf)
+		if err != nil {
+			return what + ": WriteTo into a buffer returned " + err.Error()
+		}
+		if int(n) != buf.Len() || buf.Len() <= len(mem) {
+			return fmt.Sprintf("%s: WriteTo reports %d bytes, the destination received %d (image %d bytes + footer expected)", what, n, buf.Len(), len(mem))
+		}
+		if p := parseBytesAgainst(c, buf.Bytes(), spec, allParts); p != "" {
+			return what + ": the bytes WriteTo produced, decoded by the extracted parser: " + p
+		}
+		seg, path, err := zh.PersistOpen(sb)
+		if err != nil {
+			os.Remove(path)
+			return what + ": Persist, then Open: " + err.Error()
+		}
+		cont, err := zh.Dump(seg)
+		seg.Close()
+		os.Remove(path)
+		if err != nil {
+			return what + ": persisted and opened, reading it back: " + err.Error()
+		}
+		if d := partsDiffer(cont.Sx(), spec, allParts); len(d) > 0 {
+			return what + ": persisted and opened, content differs in " + fmt.Sprint(d) + "\n" + describeDiff(cont.Sx(), spec, allParts)
+		}
+		sb.Close()
+	}
+	return ""
 }
